@@ -141,7 +141,7 @@ VERSION_CHOICES = [18, 18, 18, 17, 17, 19]   # the hosts import "" at 18: equal,
 
 def gen_rule(rng, idx: int, with_funcs: bool, allow_clash: bool, host=None, force_fam: str | None = None,
              prefer_f: bool = False) -> dict:
-    fam = force_fam or rng.choice(["reemit", "reemit", "swap", "invol", "mulone", "asfn", "keep", "two", "multi", "passthru"])
+    fam = force_fam or rng.choice(["reemit", "reemit", "swap", "invol", "mulone", "asfn", "keep", "two", "multi", "passthru", "idpass"])
     name = f"r{idx}"
     spec = dict(name=name, remove=True, asfn=False, guard=True, inits=[], unique=False, family=fam)
     if fam == "invol":
@@ -155,6 +155,14 @@ def gen_rule(rng, idx: int, with_funcs: bool, allow_clash: bool, host=None, forc
             spec["name"], spec["guard"] = "", False
         if rng.random() < 0.25:
             spec["remove"] = False
+        return spec
+    if fam == "idpass":
+        # `Identity(v) -> v`: when v must be routed (graph input/output, outer value) the rewrite is no progress and is skipped
+        # since f8abc79 (before: the routing Identity was matched again for ever); otherwise an ordinary passthru
+        spec.update(pnodes=[("Identity", "", [("v", 0)], 1, [])], root=0, pouts=[("n", 0, 0)], tnodes=[], touts=[("v", 0)],
+                    guard=False, family="idpass")
+        if rng.random() < 0.3:
+            spec["name"] = ""
         return spec
     if fam == "passthru":
         # the replacement returns its input (a graph input goes through Identity since e8a0767)
@@ -289,9 +297,21 @@ def make_case(rng, size_hi: int, allow_clash: bool) -> dict:
         with_funcs = True
     f_overload = rng.choice(["1", "2"]) if (second_pass or rng.random() < 0.3) else ""
     allow_clash = allow_clash or rng.random() < 0.2
+    # class "several output nodes, instance inside a model-local function, a consumer of the second output ahead of the first
+    # output node" (C07-D3 shape in a function body: the function must be sorted after the pass)
+    fm = None
+    if not second_pass and rng.random() < 0.05:
+        with_funcs = True
+        o1, o2 = rng.sample(L.UNARY, 2)
+        fm = (o1, o2, rng.choice(L.UNARY))
     host, hist = L.gen_host(rng, rng.randint(2, size_hi), with_funcs, with_cond, extra, f_overload=f_overload,
-                            force_f_call=second_pass)
+                            force_f_call=second_pass or bool(fm), f_multi_shape=fm)
     rules = [gen_rule(rng, i + 1, with_funcs, allow_clash, host) for i in range(nrules)]
+    if fm:
+        pn = [(fm[0], "", [("v", 0)], 1, []), (fm[1], "", [("v", 0)], 1, [])]
+        rules[0] = dict(name="r1", remove=True, asfn=False, guard=True, inits=[], unique=False, family="multi", pnodes=pn, root=0,
+                        pouts=[("n", 0, 0), ("n", 1, 0)], tnodes=[(op, dom, None, list(ins), nout, []) for op, dom, ins, nout, _ in pn],
+                        touts=[("n", 0, 0), ("n", 1, 0)])
     if second_pass:
         rules[0] = gen_rule(rng, 1, with_funcs, False, host, force_fam="asfn", prefer_f=True)
     commute = rng.random() < 0.3
@@ -304,7 +324,7 @@ def make_case(rng, size_hi: int, allow_clash: bool) -> dict:
                 sp["swapped_root"] = True
     # since aef7e04 a passthru rule may fire in a body with an outer value bound (routed through Identity): generated as it is
     return {"rules": rules, "host": host.SerializeToString().hex(), "with_cond": with_cond, "with_funcs": with_funcs, "hist": hist,
-            "commute": commute, "f_overload": f_overload if with_funcs else ""}
+            "commute": commute, "f_overload": f_overload if with_funcs else "", "multi_in_function": bool(fm)}
 
 
 def host_of(case) -> onnx.ModelProto:
@@ -408,6 +428,10 @@ def check_case(case, answers: list[str], rng, do_ort: bool, stats: Counter, keep
             if mk == "ERR" and mc.split(":")[0] == "opsetClash":
                 stats["ver_lower_clash"] += any(v < 18 for v in vers)
                 stats["ver_higher_clash"] += any(v > 18 for v in vers)
+            if mk == "OK" and case.get("noprogress") is not None and mc == case["noprogress"]:
+                stats["identity_noprogress_directed"] += 1
+            if mk == "OK" and mc and case.get("multi_in_function"):
+                stats["multi_fired_in_function"] += 1   # the host's function `f` holds the instance (C07-D3 shape), the model predicts a rewrite
             if mk == "OK" and mc:
                 stats["ver_equal_fired"] += bool(vers) and all(v == 18 for v in vers)
                 if pred_passthru(case):
@@ -597,6 +621,43 @@ def corpus() -> list[dict]:
     g12 = helper.make_graph([N("If", ["c"], ["z"], then_branch=tb2, else_branch=eb2)], "main", [L.VT("x"), bool_c], [L.VT("z")])
     out.append({"regress": "C07-D11", "with_cond": True, "rules": [copy.deepcopy(pt)],
                 "host": helper.make_model(g12, opset_imports=[helper.make_opsetid("", 18)], ir_version=10).SerializeToString().hex()})
+    # regression of the no-progress loop (fixed f8abc79): `Identity(v) -> v` with v routed through an Identity is skipped, the next
+    # rule is tried, nothing is counted.  `noprogress` = the application count the model must predict.  Every real run is under
+    # the time limit of `run_real`: a call that does not return fails the case ("does not terminate"), it does not hang the check.
+    idr = dict(base, name="r1", guard=False, family="idpass", pnodes=[("Identity", "", [("v", 0)], 1, [])], root=0, pouts=[("n", 0, 0)],
+               tnodes=[], touts=[("v", 0)])
+    reid = dict(base, name="r2", family="reemit", pnodes=[("Identity", "", [("v", 0)], 1, [])], root=0, pouts=[("n", 0, 0)],
+                tnodes=[("Identity", "", None, [("v", 0)], 1, [])], touts=[("n", 0, 0)])
+    tbi = helper.make_graph([N("Identity", ["a"], ["t"])], "tb", [], [L.VT("t")])
+    tbi2 = helper.make_graph([N("Identity", ["a"], ["t"]), N("Neg", ["t"], ["u"])], "tb", [], [L.VT("u")])
+    ebi = helper.make_graph([N("Relu", ["a"], ["e"])], "eb", [], [L.VT("e")])
+    def if_host(tb):
+        gg = helper.make_graph([N("Abs", ["x"], ["a"]), N("If", ["c"], ["z"], then_branch=tb, else_branch=ebi)], "main",
+                               [L.VT("x"), bool_c], [L.VT("z")])
+        return helper.make_model(gg, opset_imports=[helper.make_opsetid("", 18)], ir_version=10).SerializeToString().hex()
+    for rules_, h_, wc_, n_ in (
+            ([idr], host([N("Identity", ["x"], ["y"])], ["x"], ["y"]), False, 0),                                   # input -> graph output
+            ([idr], host([N("Identity", ["x"], ["t"]), N("Neg", ["t"], ["z"])], ["x"], ["z"]), False, 0),           # input -> interior node
+            ([idr], host([N("Abs", ["x"], ["a"]), N("Identity", ["a"], ["t"]), N("Neg", ["t"], ["z"])], ["x"], ["z", "a"]), False, 0),  # graph output routed
+            ([idr], host([N("Abs", ["x"], ["a"]), N("Identity", ["a"], ["t"]), N("Neg", ["t"], ["z"])], ["x"], ["z"]), False, 1),       # not routed: applies
+            ([idr], if_host(tbi), True, 0),                                                                          # outer value, body output
+            ([idr], if_host(tbi2), True, 0),                                                                         # outer value, interior of the body
+            ([idr, reid], host([N("Identity", ["x"], ["t"]), N("Neg", ["t"], ["z"])], ["x"], ["z"]), False, 1)):      # the next rule is tried
+        out.append({"regress": "f8abc79", "with_cond": wc_, "noprogress": n_, "rules": copy.deepcopy(rules_), "host": h_})
+    # directed (regression of C07-D3 in every container kind): two output nodes, the consumer of the second one precedes the first —
+    # inside a model-local function and inside an If body the container itself must be sorted after the pass
+    d3n = lambda a: [N("Neg", [a], ["n"]), N("Abs", ["n"], ["u"]), N("Relu", [a], ["r"]), N("Add", ["u", "r"], ["b"])]  # noqa: E731
+    d3rule = dict(base, name="r1", family="multi", pnodes=[("Relu", "", [("v", 0)], 1, []), ("Neg", "", [("v", 0)], 1, [])], root=0,
+                  pouts=[("n", 0, 0), ("n", 1, 0)], tnodes=[("Relu", "", None, [("v", 0)], 1, []), ("Neg", "", None, [("v", 0)], 1, [])],
+                  touts=[("n", 0, 0), ("n", 1, 0)])
+    fd3 = helper.make_function("local", "f", ["a"], ["b"], d3n("a"), [helper.make_opsetid("", 18)])
+    out.append({"with_cond": False, "multi_in_function": True, "rules": [copy.deepcopy(d3rule)],
+                "host": host([N("f", ["x"], ["r0"], domain="local"), N("Abs", ["r0"], ["z"])], ["x"], ["z"], funcs=[fd3], local=True)})
+    tbd3 = helper.make_graph(d3n("x"), "tb", [], [L.VT("b")])
+    ebd3 = helper.make_graph([N("Abs", ["x"], ["e"])], "eb", [], [L.VT("e")])
+    gd3 = helper.make_graph([N("If", ["c"], ["z"], then_branch=tbd3, else_branch=ebd3)], "main", [L.VT("x"), bool_c], [L.VT("z")])
+    out.append({"with_cond": True, "rules": [copy.deepcopy(d3rule)],
+                "host": helper.make_model(gd3, opset_imports=[helper.make_opsetid("", 18)], ir_version=10).SerializeToString().hex()})
     # regression cases kept from the generated stream (C07-D7, C07-D8; fixed c9666a4): must pass
     cf = core.VERIF / "harness" / "corpus_c07.jsonl"
     if cf.exists():
@@ -839,7 +900,7 @@ def main(run: core.Run) -> None:
         exhaustive=False,
     )
     stats["commute_cases"] += 0
-    required = ["passthru_outer_in_body", "second_pass_same", "second_pass_new", "second_pass_fired", "second_pass_host_has_overloads", "reused_ruleset_runs",
+    required = ["multi_fired_in_function", "identity_noprogress_directed", "fam_idpass", "passthru_outer_in_body", "second_pass_same", "second_pass_new", "second_pass_fired", "second_pass_host_has_overloads", "reused_ruleset_runs",
                 "ver_lower_clash", "ver_higher_clash", "ver_equal_fired", "asfn_copied_overloaded_call", "host_f_overloaded_call",
                 "commute_asfn_fired", "commute_cases", "host_val_named", "fam_reemit", "fam_swap", "fam_invol", "fam_mulone", "fam_asfn", "fam_two", "fam_multi", "fam_passthru",
                 "host_If", "host_Loop", "host_fn_Neg", "host_Two", "count_1", "count_2", "count_5", "ort_pairs"]
